@@ -77,7 +77,7 @@ Definition close_conn (fx : fixes) (cf : config) (st : state) (c : conn) : state
 Definition arrival_id (e : event) : option N :=
   match e with
   | ERtmpPub _ n _ | ERtmpSub _ n _ | ERtspPub _ n _ | ERtspSub _ n _ | EFlvSub _ n _ | ETsSub _ n _
-  | ECustPub _ n | EPsPub _ n => Some n
+  | ECustPub _ n | EPsPub _ n _ => Some n
   | _ => None
   end.
 
